@@ -67,6 +67,10 @@ typedef struct {
   // For #line directive
   char *display_name;
   int line_delta;
+
+  // For #include_next: index in include_paths of the directory after
+  // the one this file was found in
+  int include_next_idx;
 } File;
 
 // Token type
